@@ -26,14 +26,19 @@ import pysam
 from harness.gen import sim
 from harness.gen import c12_vcf as G
 
-RULE = ("case = one generated VCF of one ploidy (2-4), 1-3 chromosomes, 1-3 samples, PS or HP phasing, up to 24*scale records "
-        "per chromosome (SNV/indel/MNP/multi-ALT/no-ALT, duplicated positions, rarely unsorted), calls het/hom/missing/partial, "
-        "phased into 0-4 interleaved or contiguous phase sets per chromosome, phased calls without PS key or PS value, run with "
-        "random --only-snvs / --chromosome / --sample; non-trivial iff stats succeeded and some processed chromosome has a "
-        "block of >= 2 variants; distinct = distinct (file text, options)")
+RULE = ("case = one generated VCF of one ploidy (1-6), 1-4 chromosomes, 1-3 samples, PS or HP phasing (per chromosome), up to "
+        "24*scale records per chromosome (SNV/indel/MNP/multi-ALT/no-ALT/'*'/<DEL>/ALT=REF, duplicated positions, rarely "
+        "unsorted), calls het/hom/missing/partial, phased into 0-4 interleaved or contiguous phase sets per chromosome, phased "
+        "calls without PS key or PS value, header contigs with or without length, optional --chr-lengths file, plain or "
+        "bgzipped+tabix-indexed, run with random --only-snvs / --chromosome (comma lists, repeated, unknown, empty names) / "
+        "--sample; plus in-process calls of n50 / compute_ng50 / unpack_chromosomes on small random arguments; non-trivial iff "
+        "stats succeeded and some processed chromosome has a block of >= 2 variants; distinct = distinct (file text, options)")
 MANIFEST = dict(
-    text="Lean 4 theorems about a model of stats.py (reader filters, call classification, block building, the "
-         "pop/split/re-sort loop with explicit fuel, aggregation, block list): phased+unphased+singletons = heterozygous, "
+    text="Lean 4 theorems about a model of stats.py from the data lines to every output row (reader filters, call "
+         "classification, block building, the pop/split/re-sort loop with explicit fuel, the chromosome loop of run_stats "
+         "with --chromosome filter / early exit / indexed fetch, aggregation, block list, GTF, NG50): the reader delivers the "
+         "first eligible record of every position, every row counts exactly those records, the early exit loses no wanted "
+         "chromosome, GTF features = maximal runs, block_n50 = N50 of the reported lengths, phased+unphased+singletons = heterozygous, "
          "block sizes sum to phased, block list exact (one row per phase set, true min/max/size), non-overlapping pieces are "
          "pairwise disjoint, the loop terminates within the stated measure, their length sum <= covered span, the ALL row is "
          "the sum of the chromosome rows for the additive columns, counts = independent counts (repaired code). Tied to the "
@@ -42,13 +47,16 @@ MANIFEST = dict(
     design_ref="DESIGN.md §5 C12",
     note="trusted: Lean kernel, axioms ⊆ {propext, Classical.choice, Quot.sound}; hand-written model; htslib/pysam parsing; "
          "MixedPhasingError / PloidyError (consistency over all samples) are outside the model, inputs are of one ploidy and one "
-         "phasing kind; medians, averages, fractions and NG50 are not additive and are only compared with the model",
+         "phasing kind per chromosome; medians, averages and fractions are only compared with the model (recomputed from its "
+         "sorted lists); the float comparison in n50 is modelled over the integers",
     technique="Lean 4 model + counting/partition lemmas + invariant proof of the splitting loop + CLI differential run with oracle",
 )
 ASSUMPTIONS = [
     "one consistent ploidy and one phasing encoding (PS or HP) per file, HP fields match the ploidy (else the reader raises "
     "PloidyError / MixedPhasingError / IndexError before stats sees anything)",
-    "chromosomes are contiguous in the file; contig lengths are declared in the header",
+    "chromosomes are contiguous in the file; every contig with records is declared in the header (lengths optional)",
+    "ALT differs from REF (a record with ALT = REF passes the reader's --only-snvs length test but is no SNV for is_snv(); "
+    "such chromosomes are only compared with the model under --only-snvs)",
 ]
 WORKERS = 6
 INT_FIELDS = ["variants", "phased", "unphased", "singletons", "blocks", "variant_per_block_sum", "bp_per_block_sum",
